@@ -1,7 +1,8 @@
 #!/usr/bin/env python3
 """Translator T (C19): lexical init/finalize balance of every `return` of the signer-side sources -> lean/SqiGen/ReturnPaths.lean.
 For each function, each `return` is listed with the local GMP-backed objects (`ibz_*`, `ibq_*`, `quat_*`, `id2iso_*` `_init(&x …)`)
-that were initialised textually before it in an enclosing block and not finalised before it in an enclosing block. Conservative
+(and the local theta chains handed to `theta_chain_comput_*` / `fixed_degree_isogeny` / clapotis, released by
+`theta_chain_finalize`) that were initialised textually before it in an enclosing block and not finalised before it in an enclosing block. Conservative
 and lexical (no path sensitivity: a finalize in a sibling branch does not count, one in an enclosing block does); only `&local`
 arguments are tracked (objects reached through `->` belong to the caller). The theorem SqiProps.C19.return_paths_audited pins the
 list of unbalanced returns to the audited one, so a new early return that skips the cleanup breaks a proof obligation."""
@@ -14,6 +15,8 @@ FILES = ["src/dim2id2iso/ref/dim2id2isox/dim2id2iso.c", "src/id2iso/ref/id2isox/
          "src/sqisigndim2_heuristic/ref/sqisigndim2_heuristicx/sign.c", "src/sqisigndim2_heuristic/ref/sqisigndim2_heuristicx/keygen.c",
          "src/sqisignhd/ref/sqisignhdx/sign.c", "src/sqisignhd/ref/sqisignhdx/keygen.c"]
 CALL = re.compile(r"\b((?:ibz|ibq|quat|id2iso)[A-Za-z0-9_]*?)_(init|finalize)\s*\(\s*&\s*\(?\s*([A-Za-z_][A-Za-z_0-9]*(?:\s*\[[^\]]*\])*(?:\.[A-Za-z_][A-Za-z_0-9]*)*)")
+CHAIN_INIT = re.compile(r"\b(?:theta_chain_comput_[A-Za-z_0-9]+|fixed_degree_isogeny|dim2id2iso_ideal_to_isogeny_clapotis)\s*\(\s*&\s*([A-Za-z_][A-Za-z_0-9]*)")
+CHAIN_FIN = re.compile(r"\btheta_chain_finalize\s*\(\s*&\s*([A-Za-z_][A-Za-z_0-9]*)")
 RET = re.compile(r"\breturn\b")
 GUARD = "SQISIGN_SQISIGN2D_WEST_AC24_VERIF"
 
@@ -65,6 +68,12 @@ def analyse(body):
     ev = []
     for m in CALL.finditer(body):
         ev.append((m.start(), m.group(2), re.sub(r"\s+", "", m.group(3)), path[m.start()]))
+    # theta chains: a local chain handed to a computing function owns a heap block (`steps`) until theta_chain_finalize
+    for m in CHAIN_INIT.finditer(body):
+        ev.append((m.start(), "init", "chain:" + m.group(1), path[m.start()]))
+    for m in CHAIN_FIN.finditer(body):
+        ev.append((m.start(), "finalize", "chain:" + m.group(1), path[m.start()]))
+    ev.sort()
     res = []
     for k, r in enumerate(RET.finditer(body)):
         rp = path[r.start()]
